@@ -303,7 +303,7 @@ type IllegalCase struct {
 var illegalKinds = []string{"config-true-under-false", "config-true-under-false-deep", "config-true-in-grouping-used-under-false", "status-strengthened", "status-strengthened-deep",
 	"current-uses-deprecated-grouping", "current-type-obsolete-typedef", "deprecated-type-obsolete-typedef", "current-iffeature-deprecated-feature", "current-base-deprecated-identity",
 	"current-refine-deprecated-node", "current-uses-augment-deprecated-node", "current-augment-deprecated-node", "current-grouping-uses-deprecated-grouping", "current-typedef-type-deprecated-typedef",
-	"deviate-add-existing", "deviate-delete-missing", "deviate-delete-wrong-value", "deviate-replace-missing", "not-supported-plus-other", "deviate-add-not-allowed", "deviate-unknown-target", "deviate-replace-not-allowed", "deviate-replace-duplicate"}
+	"deviate-add-existing", "deviate-delete-missing", "deviate-delete-wrong-value", "deviate-replace-missing", "not-supported-plus-other", "deviate-add-not-allowed", "deviate-unknown-target", "deviate-replace-not-allowed", "deviate-replace-duplicate", "deviate-unknown-target-in-operation"}
 
 func leaf(name string) *sg.Node {
 	return &sg.Node{Kind: "leaf", Name: name, Type: &sg.TypeSpec{Name: "string"}}
@@ -573,6 +573,25 @@ func buildIllegal(kind string, sub int, legal bool) []*sg.Mod {
 			st = `default "dv";`
 		}
 		dev.Deviations = []*sg.Deviation{{Target: tpath + "/m0:t", Deviates: []sg.Deviate{{Kind: "delete", Stmts: []string{st}}}}}
+		mods = append(mods, dev)
+	case "deviate-unknown-target-in-operation":
+		// the path of a deviation may lead into a notification or into the input or output of an rpc; the illegal variant
+		// names a node that is not there
+		nx := leaf("nx")
+		nx.Units = "seconds"
+		m.Notifs = []*sg.Notif{{Name: "ntf", Kids: []*sg.Node{nx, leaf("ny"), {Kind: "container", Name: "nc", Kids: []*sg.Node{leaf("deep")}}}}}
+		ix := leaf("ix")
+		ix.Units = "seconds"
+		m.Rpcs = []*sg.Rpc{{Name: "rp", Input: []*sg.Node{ix, leaf("iy")}, Output: []*sg.Node{leaf("ox")}}}
+		tgt := []string{"/m0:ntf/m0:nx", "/m0:rp/m0:input/m0:ix", "/m0:ntf/m0:nc/m0:deep", "/m0:rp/m0:output/m0:ox"}[v(4)]
+		if !legal {
+			tgt = tgt[:strings.LastIndex(tgt, ":")+1] + "nosuch"
+		}
+		dv := sg.Deviate{Kind: "not-supported"}
+		if strings.HasSuffix(tgt, "x") && !strings.HasSuffix(tgt, "ox") && v(2) == 1 {
+			dv = sg.Deviate{Kind: "replace", Stmts: []string{`units "hours";`}}
+		}
+		dev.Deviations = []*sg.Deviation{{Target: tgt, Deviates: []sg.Deviate{dv}}}
 		mods = append(mods, dev)
 	case "deviate-replace-duplicate":
 		// every property a deviate replace can give is single-valued
